@@ -683,6 +683,20 @@ _CMPOPS = {ast.Eq: '==', ast.NotEq: '!=', ast.Lt: '<', ast.LtE: '<=', ast.Gt: '>
 _UNOPS = {ast.USub: '-', ast.UAdd: '+', ast.Not: 'not', ast.Invert: '~'}
 
 
+def canon_cmp(op, l, r):
+    """canonical comparison: only < and <= (a > b is b < a); for == / != the constant / global goes right"""
+    if op == '>':
+        return ('cmp', '<', r, l)
+    if op == '>=':
+        return ('cmp', '<=', r, l)
+    if op in ('==', '!='):
+        def rank(x):
+            return 2 if x[0] == 'c' else (1 if x[0] == 'g' else 0)
+        if rank(l) > rank(r) or (rank(l) == rank(r) and repr(l) > repr(r)):
+            return ('cmp', op, r, l)
+    return ('cmp', op, l, r)
+
+
 def fold_bin(op, l, r):
     if l[0] == 'c' and r[0] == 'c':
         a, b = l[1], r[1]
@@ -749,7 +763,7 @@ class TermBuilder:
                 t = item(t, i)
             return t
         if d.kind == 'for':
-            t = ('iter', self.sub(d.node).build(d.value), d.node)
+            t = mk_iter(self.sub(d.node).build(d.value), d.node)
             for i in d.path:
                 t = item(t, i)
             return t
@@ -838,7 +852,7 @@ class TermBuilder:
             parts, left = [], b(e.left)
             for op, c in zip(e.ops, e.comparators):
                 right = b(c)
-                parts.append(('cmp', _CMPOPS[type(op)], left, right))
+                parts.append(canon_cmp(_CMPOPS[type(op)], left, right))
                 left = right
             return parts[0] if len(parts) == 1 else ('bool', 'and') + tuple(parts)
         if isinstance(e, ast.BoolOp):
@@ -889,7 +903,7 @@ class TermBuilder:
             it = tb.build(g.iter)
             bound = dict(bound)
             base = len(bound)
-            itv = ('iter', it, 'comp%d' % base)
+            itv = mk_iter(it, 'comp%d' % base)
             for k, (nm, path, _) in enumerate(target_names(g.target)):
                 t = itv
                 for i in path:
@@ -906,6 +920,23 @@ class TermBuilder:
         return ('comp', kind, elt, tuple(gens))
 
 
+def mk_iter(it, tag):
+    """element of iterable `it` in loop `tag`; range(len(X)) is the index over X"""
+    if it[0] == 'call' and it[1] == ('g', 'builtins.range') and len(it[2]) == 1 and not it[3]:
+        a = it[2][0]
+        if a[0] == 'call' and a[1] == ('g', 'builtins.len') and len(a[2]) == 1 and not a[3]:
+            return ('idx', a[2][0], tag)
+    return ('iter', it, tag)
+
+
+def mk_index(x, tag):
+    """index of the elements of x in loop `tag` (enumerate / range(len(x)))"""
+    n = simplify_call(('call', ('g', 'builtins.len'), (x,), ()))
+    if n[0] == 'c':
+        return ('iter', ('call', ('g', 'builtins.range'), (n,), ()), tag)
+    return ('idx', x, tag)
+
+
 def item(t, i):
     """component i of an unpacked value"""
     if t[0] in ('tuple', 'list') and isinstance(i, int) and i < len(t) - 1 and not any(x[0] == 'star' for x in t[1:]):
@@ -916,7 +947,7 @@ def item(t, i):
             if i == 1:
                 return ('iter', src[2][0], t[2])
             if i == 0:
-                return ('idx', src[2][0], t[2])
+                return mk_index(src[2][0], t[2])
         if src[0] == 'call' and src[1] == ('g', 'builtins.zip') and i < len(src[2]):
             return ('iter', src[2][i], t[2])
     return ('item', t, i)
